@@ -25,7 +25,8 @@ pub fn json_escape(input: &[u8], mut out: Vec<u8>) -> Result<Vec<u8>, Error> {
                 0x5C => out.extend("\\\\".as_bytes()),
                 _ => {
                     if codepoint > 0x20 {
-                        panic!("unnecessary encoding requested");
+                        // not a safe character either: beyond U+10FFFF
+                        return Err(InnerError::Utf8Error.into());
                     }
                     // This violates NIP-01 which doesn't allow characters like 0x00
                     // even though JSON UTF-8 does.
